@@ -403,6 +403,15 @@ func c09CheckData(msg *pb.Data, wire []byte) error {
 	if !bytes.Equal(enc, snapshot) {
 		return fmt.Errorf("the %d bytes returned by EncodeUnixFSData changed after later EncodeUnixFSData calls: now %x, were %x", len(enc), enc, snapshot)
 	}
+	// ... and they are the caller's to recycle: used as scratch for another message, they do not change what the library
+	// returns for this one the next time
+	{
+		scratch := data.EncodeUnixFSData(d)
+		_ = data.AppendEncodeUnixFSData(scratch[:0], c09OtherNode)
+		if again := data.EncodeUnixFSData(d); !bytes.Equal(again, snapshot) {
+			return fmt.Errorf("after the caller reused the slice EncodeUnixFSData had returned as scratch for another message, EncodeUnixFSData of the same message gives %x, it gave %x", again, snapshot)
+		}
+	}
 	var back pb.Data
 	if err := proto.Unmarshal(enc, &back); err != nil {
 		return fmt.Errorf("reference rejects the library's encoding %x of {%v}: %v", enc, msg, err)
